@@ -19,7 +19,7 @@ RULE = ("BFS over all removal histories up to the depth bound from every network
         "and level scenario; at every distinct reached state all cut-outs (7 shapes x 8 excluded-type sets; all lanelet subsets of "
         "size<=2 for create_from_lanelet_list). States de-duplicated on the public snapshot. non-trivial = states reached by >=1 "
         "removal that still contain references")
-ASSUMPTIONS = ["incoming 'left_of' and sign 'first_occurrence' are not among the statement's reference kinds (not asserted)",
+ASSUMPTIONS = ["incoming 'left_of' and sign 'first_occurrence' are not among the statement's reference kinds (dangling ones are not asserted; a 'left_of' whose target is still present is content and must be unchanged)",
                "stop lines refer only to signs/lights their lanelet also references (quantifier)",
                "cut-outs: which incoming elements / intersections / unreferenced signs survive is asserted only where a relation between "
                "two kept lanelets would otherwise be lost; everything that survives must be exactly the restriction of the original",
@@ -112,12 +112,18 @@ def deviations():
         sp["lanelets"][2]["stop_line"]["light_ref"] = [13]
         sp["lanelets"][2]["lights"] = [13]
 
+    def incoming_id_zero(sp):
+        # 0 is a valid id: the first incoming element carries it and the second one names it as its left neighbour
+        sp["intersections"][0]["incomings"][0]["id"] = 0
+        sp["intersections"][0]["incomings"][1]["left_of"] = 0
+        sp["intersections"][0]["incomings"][1]["left_of_set_later"] = True       # assigned through the setter (as a file reader does)
+
     def two_incoming_lanelets(sp):
         sp["intersections"][0]["incomings"][0]["lanelets"] = [1, 2]
         sp["intersections"][0]["incomings"][0]["left"] = [4]
     return [("diamond", diamond), ("sixth-lanelet", sixth), ("adjacency-flip", adj_flip), ("sign-on-all", sign_all), ("second-intersection", second_intersection),
             ("light-shared", light_shared), ("incoming-two-lanelets", two_incoming_lanelets), ("stopline-light-subset", stopline_light_subset), ("one-sided-links", one_sided_links), ("signs-without-first-occurrence", signs_without_first_occurrence),
-            ("shared-reference-sets", shared_reference_sets), ("stopline-refs-none", stopline_refs_none)]
+            ("shared-reference-sets", shared_reference_sets), ("stopline-refs-none", stopline_refs_none), ("incoming-id-zero", incoming_id_zero)]
 
 
 def variant(names):
@@ -147,8 +153,12 @@ def m_strip(s):
     for sg in s["signs"].values():
         sg.pop("first_occurrence", None)
     for it in s["intersections"].values():
+        # 'left_of' is not among the reference kinds the statement lists (it may keep naming an incoming element that is gone), but it is content of
+        # the incoming element: while the element it names is still there, it is unchanged
+        there = {inc["id"] for inc in it["incomings"]}
         for inc in it["incomings"]:
-            inc.pop("left_of", None)
+            if inc.get("left_of") is not None and inc["left_of"] not in there:
+                inc["left_of"] = "names-an-element-that-is-gone"
     for t in s["lights"].values():
         t.pop("color", None)
     return s
@@ -458,6 +468,8 @@ def check_cutouts(live, model, hist, res, tier):
                     ginc = None if g is None else next((x for x in g["incomings"] if x["id"] == inc["id"]), None)
                     if inc["lanelets"] and succ and ginc is None:
                         res.violation("C10|create_from_lanelet_network|lost-relation:incoming-between-kept-lanelets", f"{case}: incoming {inc['id']} of {iid}", case)
+                    if ginc is not None and inc.get("left_of") is not None and inc["left_of"] not in {x["id"] for x in g["incomings"]}:
+                        inc = dict(inc, left_of="names-an-element-that-is-gone")      # (its target did not survive the cut: not asserted, see m_strip)
                     if ginc is not None and ginc != inc:
                         res.violation("C10|create_from_lanelet_network|incoming-not-restriction-of-original", f"{case}: {ginc} expected {inc}", case)
                 if g is not None and sorted(g["crossings"]) != sorted(it["crossings"]):
@@ -517,7 +529,7 @@ def units(tier):
         for level in ("net", "scenario"):
             # thorough: pairs of deviations at depth 2; quick: the four deviations that only alter reference data (not the graph) at depth 2
             d = 2 if (tier == "thorough" and len(v) == 2) else depth
-            if tier == "quick" and v and v[0] in ("stopline-light-subset", "one-sided-links", "signs-without-first-occurrence", "shared-reference-sets", "stopline-refs-none"):
+            if tier == "quick" and v and v[0] in ("stopline-light-subset", "one-sided-links", "signs-without-first-occurrence", "shared-reference-sets", "stopline-refs-none", "incoming-id-zero"):
                 d = 2
             live = build_net(v) if level == "net" else build_scenario(v)
             u.append({"variant": v, "level": level, "depth": 0, "first": None})
